@@ -29,7 +29,7 @@ META = {
 NAMES = ("a", "b")
 OPS = [
     ("push", "feature"), ("push", "rule"), ("push", "scenario"), ("pop",),
-    ("set", "a"), ("set", "b"), ("setroot", "a"), ("del", "a"), ("del", "b"),
+    ("set", "a"), ("set", "b"), ("set-same", "a"), ("setroot", "a"), ("del", "a"), ("del", "b"),
     ("uoa", "a"), ("uoc", "b"),
     ("cleanup", "plain"), ("cleanup", "args"), ("cleanup", "layer:testrun"), ("cleanup", "layer:feature"),
     ("fixture", "gen"), ("fixture", "gen-nested"), ("fixture", "plain"), ("fixture", "failing-gen"), ("fixture", "composite-fail"),
@@ -156,6 +156,14 @@ def _h_ctx_ops(sx):
             with ctx.use_with_user_mode():
                 setattr(ctx, op[1], v)
             ref.frames[0]["vars"][op[1]] = v
+        elif kind == "set-same":
+            # assign the very object that is visible already (e.g. context.profile = context.default_profile): the
+            # current scope gets its own entry all the same
+            has, val = ref.lookup(op[1])
+            if has:
+                with ctx.use_with_user_mode():
+                    setattr(ctx, op[1], val)
+                ref.frames[0]["vars"][op[1]] = val
         elif kind == "setroot":
             v = newval()
             ctx._set_root_attribute(op[1], v)
@@ -306,6 +314,18 @@ def _h_ctx_ops(sx):
                 except ValueError:
                     pass
         observe(tag)
+    # final probe: exactly the names the current scope set itself can be deleted in it
+    for name in NAMES:
+        ok = name in ref.frames[0]["vars"]
+        try:
+            delattr(ctx, name)
+            sx.check(ok, "C13.delete-only-in-own-scope", detail=lambda m, name=name: {"history": list(history), "probe": "del " + name})
+            ref.frames[0]["vars"].pop(name, None)
+        except AttributeError:
+            sx.check(not ok, "C13.delete-only-in-own-scope", detail=lambda m, name=name: {"history": list(history), "probe": "del " + name, "expected": "deletable"})
+        except KeyError:
+            sx.check(False, "C13.delete-only-in-own-scope", detail=lambda m, name=name: {"history": list(history), "probe": "del " + name, "raised": "KeyError"})
+    observe(list(history) + ["probe-del"])
     # unwind everything: every registered cleanup ran exactly once overall
     while len(ref.frames) > 1:
         before = len(ran)
